@@ -136,6 +136,47 @@ class C16Bounded(Bounded):
             ran = os.path.exists(marker + ("_vars" if inside else "_sibling"))
             if ran != inside:
                 fails.append({"text": f"vars file {vf} with allowed base {os.path.dirname(varsfile)}: executed={ran}, expected {inside}", "input": [vf]})
+        # the YAML text of a pipeline is data: tags that construct Python objects are not honoured (default arguments, every loader)
+        evil_yaml = [f"name: p\ntransformations: []\nvars:\n  x: !!python/object/apply:os.system ['touch {marker}_cmd']\n",
+                     f"name: p\npriority: !!python/object/apply:subprocess.check_output [['touch', '{marker}_cmd']]\ntransformations: []\n",
+                     f"!!python/object/apply:os.system ['touch {marker}_cmd']\n"]
+        yfile = os.path.join(root, "evil.yml")
+        from sigma.processing.resolver import ProcessingPipelineResolver as _Res
+        for text in evil_yaml:
+            for name, load in (("from_yaml", lambda t: ProcessingPipeline.from_yaml(t)), ("resolver (file)", lambda t: (open(yfile, "w").write(t), _Res().resolve_pipeline(yfile))[1]),
+                               ("resolver.resolve", lambda t: (open(yfile, "w").write(t), _Res().resolve([yfile]))[1])):
+                ev += 1
+                nontriv += 1
+                del events[:]
+                if os.path.exists(marker + "_cmd"):
+                    os.unlink(marker + "_cmd")
+                try:
+                    load(text)
+                except Exception:
+                    pass            # rejecting the document (with whatever error the YAML reader has) is fine; running something is not
+                if events or os.path.exists(marker + "_cmd"):
+                    fails.append({"text": f"pipeline text with a Python object tag loaded through {name}: a command was run ({events[:2]}); text {text[:80]!r}", "input": ["yaml tag", name]})
+        # templates loaded from a template directory (the `path` option) are sandboxed like inline templates
+        tdir = os.path.join(root, "templates")
+        os.makedirs(tdir, exist_ok=True)
+        payloads = ["{{ cycler.__init__.__globals__.os.system('touch " + marker + "_cmd') }}", "{{ ''.__class__.__mro__[1].__subclasses__() | length }}{{ query.__class__.__init__.__globals__ }}",
+                    "{{ lipsum.__globals__['os'].popen('touch " + marker + "_cmd').read() }}"]
+        for pi_, payload in enumerate(payloads):
+            open(os.path.join(tdir, f"t{pi_}.j2"), "w").write(payload)
+            for doc in ({"postprocessing": [{"type": "template", "template": f"t{pi_}.j2", "path": tdir}]}, {"postprocessing": [{"type": "template", "template": payload}]},
+                        {"finalizers": [{"type": "template", "template": f"t{pi_}.j2", "path": tdir}]}, {"finalizers": [{"type": "nested", "finalizers": [{"type": "template", "template": f"t{pi_}.j2", "path": tdir}]}]}):
+                ev += 1
+                nontriv += 1
+                del events[:]
+                if os.path.exists(marker + "_cmd"):
+                    os.unlink(marker + "_cmd")
+                try:
+                    p = ProcessingPipeline.from_dict(copy.deepcopy(doc))
+                    TextQueryTestBackend(p).convert(SigmaCollection.from_yaml(RULE.replace("f|expand: '%ph%'", "f: v")))
+                except Exception:
+                    pass
+                if events or os.path.exists(marker + "_cmd"):
+                    fails.append({"text": f"template {payload[:60]!r} in {list(doc)[0]} {'from a template directory' if 'path' in str(doc) else 'inline'}: a command was run during conversion ({events[:2]})", "input": ["template sandbox", pi_, list(doc)[0]]})
         # an EMPTY list of allowed directories allows no directory (it is not "no restriction"), for every way of passing it and every item kind
         tdoc = lambda vf: {"postprocessing": [{"type": "template", "template": "{{ query }}", "vars": vf}, {"type": "nest", "items": []}],
                            "finalizers": [{"type": "template", "template": "{{ queries }}", "vars": vf}, {"type": "nested", "finalizers": [{"type": "template", "template": "x", "vars": vf}]}]}
